@@ -570,7 +570,8 @@ class WebSocketApp:
             )
             reason = close_frame.data[2:]
             if isinstance(reason, bytes):
-                reason = reason.decode("utf-8")
+                # with skip_utf8_validation the reason may not be UTF-8; it must not make teardown fail
+                reason = reason.decode("utf-8", errors="replace")
             return [close_status_code, reason]
         else:
             # Most likely reached this because len(close_frame_data.data) < 2
